@@ -278,7 +278,7 @@ def _find_domain_pointwise_unary_generic(op, domain):
 def _find_domain_astype(op, domain):
     if op.defaults["dtype"] in ("float", "double", "float32", "float64"):
         dtype = "real"
-    elif op.defaults["dtype"] in ("bool"):
+    elif op.defaults["dtype"] == "bool":
         dtype = 2
     elif op.defaults["dtype"] in ("int", "int8", "int16", "int32", "int64", "uint8"):
         dtype = domain.dtype
